@@ -7,7 +7,11 @@ rows = []
 for f in sorted(glob.glob(os.path.join(res_dir, 'C*_m*.json'))):
     base = os.path.basename(f)[:-5]
     pid, m = base.split('_')
-    src = '/tmp/seed_%s/mutants' % pid
+    if m.startswith('r2'):
+        src = '/tmp/s2_%s/mutants' % pid
+        m = m[2:]
+    else:
+        src = '/tmp/seed_%s/mutants' % pid
     r = json.load(open(f))
     patch = r['patch']
     if not os.path.exists(patch):
@@ -26,7 +30,7 @@ for f in sorted(glob.glob(os.path.join(res_dir, 'C*_m*.json'))):
         shutil.copy(demo, os.path.join(dst, 'demo.py'))
     out = {
         'id': base, 'property': pid, 'summary': meta.get('summary'), 'needs_to_manifest': meta.get('needs'), 'files': meta.get('files'),
-        'origin': 'written by an independent sub-agent that saw only the text of the property and a scratch worktree of /repo',
+        'origin': 'written by an independent sub-agent that saw only the text of the property and a scratch worktree of /repo' + (' (round 2: also the one-line summaries of the round-1 changes, to avoid repeating them)' if base.split('_')[1].startswith('r2') else ''),
         'confirmed': {'repo_suite_still_86_of_86': r.get('baseline_ok'), 'demo_exit_on_patched_tree': r.get('demo_patched_rc'), 'demo_exit_on_clean_tree': r.get('demo_clean_rc'),
                       'how': 'tools/try_mutant.py <patch> --props %s --baseline --demo <demo> (scratch worktree of /repo HEAD, FXPVERIF_REPO)' % pid},
         'caught_by_quick_checks': r.get('caught_by'), 'check_results': r.get('results'),
